@@ -292,6 +292,14 @@ func (fr *frame) callRepo(p *Path, e *ast.CallExpr, fi *FuncInfo, recv Value, ar
 						v = tv.Vs[g.Res]
 					}
 					pv.P.Ghosts[g.Name] = v
+					if pv.P.GhostHeap == nil {
+						pv.P.GhostHeap = map[string]map[string]Term{}
+					}
+					snap := make(map[string]Term, len(pv.P.Heap))
+					for hk, hv := range pv.P.Heap {
+						snap[hk] = hv
+					}
+					pv.P.GhostHeap[g.Name] = snap
 				}
 			}
 		}
